@@ -290,7 +290,7 @@ def finish(res, claim, t_start, extra_cov=None):
                     name = "replay_" + re.sub(r"\W", "_", o["id"])
                     reproduced = re.search(name + r"[^\n]*(FAILED|panicked)", log) is not None and "REPLAY-VIOLATION-REPRODUCED" in log
                     o["replayed"] = bool(reproduced)
-                    o["replay_log"] = log[-1500:]
+                    o["replay_log"] = "\n".join(l for l in log.split("\n----\n")[0].splitlines() if name in l or "REPLAY-" in l)[:3000] + "\n...\n" + log[-1200:]
                     o["replay_test_source"] = srcs[o["id"]]
     for o in res.obligations:
         if o["status"] != "failed":
@@ -451,6 +451,8 @@ def _r_one(i):
         return ("undecided", f"R unit {u.name}: outside the fragment: {e}", [], None)
     except ring.AstLost as e:
         return ("undecided", f"R unit {u.name}: lost anchor: {e}", [], None)
+    except ring.Undecidable as e:
+        return ("undecided", f"R unit {u.name}: cannot decide: {e}", [], None)
     except Exception as e:      # a defect of the checker itself must never look like a verdict about the code
         return ("undecided", f"R unit {u.name}: internal error of the checker: {type(e).__name__}: {e}", [], None)
     vac = None
